@@ -570,7 +570,11 @@ func safeCall(c *apiCall, n *SimNode, h *handles) (err error, panicked string) {
 // ---- scratch directory ------------------------------------------------------------
 
 func scratchDir(seed int64) string {
-	d := filepath.Join("/verif/work/scratch", fmt.Sprintf("%d-%d", os.Getpid(), seed))
+	base := os.Getenv("VERIF_WORK")
+	if base == "" {
+		base = "/verif/work"
+	}
+	d := filepath.Join(base, "scratch", fmt.Sprintf("%d-%d", os.Getpid(), seed))
 	_ = os.MkdirAll(d, 0o755)
 	return d
 }
